@@ -29,11 +29,14 @@ const (
 	classMethodValueInterface = "method-value-in-interface"
 	// go f() with f a method value: startGoroutine dereferences the nil callable.native
 	classGoMethodValue = "go-method-value"
-	// the conversion (func())(nil) compared with nil is not nil
-	classNilConversion = "nil-func-conversion-not-nil"
+	// a nil function value compared with nil is not nil
+	classNilConversion = "nil-func-compares-not-nil"
+	// for f := range ch { f(xs...) } with f a variadic native function: the registers of the call
+	// are mixed up (the callable lands where the slice is expected)
+	classRangeChanSpread = "range-channel-spread-call"
 )
 
-var callableClasses = []string{classEnvValue, classAppend, classMethodValueInterface, classGoMethodValue, classNilConversion}
+var callableClasses = []string{classEnvValue, classAppend, classMethodValueInterface, classGoMethodValue, classNilConversion, classRangeChanSpread}
 
 func isCallableClass(id string) bool {
 	for _, c := range callableClasses {
@@ -66,6 +69,8 @@ func predict(cc callCase) (class, effect string) {
 		return classEnvValue, "host-panic"
 	case k.mv && (st.name == "go-local" || st.name == "go-direct" && k.imv):
 		return classGoMethodValue, "undocumented-error"
+	case st.name == "channel-range" && strings.HasPrefix(k.expr, "x.Nat") && strings.HasSuffix(k.args, "..."):
+		return classRangeChanSpread, "panic-error"
 	case k.nilFn && st.nilCmp:
 		if st.name == "nil-compare-then-call" {
 			return classNilConversion, "panic-error"
@@ -109,6 +114,8 @@ func messageOf(class string, cc callCase, o outcome) bool {
 		return o.errType == "runtime.errorString" && strings.Contains(msg, "nil pointer dereference")
 	case classNilConversion:
 		return true
+	case classRangeChanSpread:
+		return strings.Contains(msg, "reflect.Set: value of type *runtime.callable is not assignable to type []int")
 	}
 	return false
 }
